@@ -37,6 +37,10 @@ def keys(tier):
     if tier == "thorough":
         ks["seedB"] = hashlib.sha256(b"C08-B-%d" % core.SEED).digest()
         ks["text"] = b"0123456789abcdef0123456789ABCDEF"
+        for i in range(10):
+            ks["seed%02d" % i] = hashlib.sha256(b"C08-x-%d-%d" % (core.SEED, i)).digest()
+        ks["one-bit"] = bytes(31) + b"\x01"
+        ks["high-bit"] = b"\x80" + bytes(31)
     return ks
 
 
@@ -50,7 +54,7 @@ def patterns(n):
 
 
 def bounds(tier):
-    return {"max_len": 80 if tier == "thorough" else 48, "keys": sorted(keys(tier)), "methods": ["aes", "xor", "best"],
+    return {"max_len": 160 if tier == "thorough" else 48, "keys": sorted(keys(tier)), "methods": ["aes", "xor", "best"],
             "patterns": sorted(patterns(1))}
 
 
